@@ -25,9 +25,10 @@ VARIABLES initCap,   \* the cap the listener was created with
           applied,   \* set of indices of req whose adjustment has completed
           open,      \* accepted connections not yet closed by the client/handler
           dropped,   \* established connections closed by the server side because of a resize
-          starved    \* a waiting client was not accepted although open < every cap in effect
+          starved,   \* a waiting client was not accepted although open < every cap in effect
+          stalled    \* a requested change was found never to be applied although no connection was open
 
-cvars == <<initCap, req, applied, open, dropped, starved>>
+cvars == <<initCap, req, applied, open, dropped, starved, stalled>>
 
 MaxOf(S) == CHOOSE x \in S : \A y \in S : y <= x
 MinOf(S) == CHOOSE x \in S : \A y \in S : x <= y
@@ -42,30 +43,30 @@ CapsInEffect == {CapAt(j) : j \in AppliedPrefix..Len(req)}
 Settled == AppliedPrefix = Len(req)           \* no change in flight: exactly one cap in effect
 
 CInit(caps) ==
-    /\ initCap \in caps /\ req = <<>> /\ applied = {} /\ open = 0 /\ dropped = 0 /\ starved = FALSE
+    /\ initCap \in caps /\ req = <<>> /\ applied = {} /\ open = 0 /\ dropped = 0 /\ starved = FALSE /\ stalled = FALSE
 
 (* a new connection is accepted: only below a cap in effect (NoAcceptAboveCap / HeldBack) *)
 CAccept ==
     /\ open < MaxOf(CapsInEffect)
     /\ open' = open + 1
-    /\ UNCHANGED <<initCap, req, applied, dropped, starved>>
+    /\ UNCHANGED <<initCap, req, applied, dropped, starved, stalled>>
 
 (* the client (or the handler) closes an established connection; its capacity is given back *)
 CClose ==
     /\ open > 0
     /\ open' = open - 1
-    /\ UNCHANGED <<initCap, req, applied, dropped, starved>>
+    /\ UNCHANGED <<initCap, req, applied, dropped, starved, stalled>>
 
 (* a cap change is requested; any value, also below the current usage: nothing is dropped *)
 CSetMax(n) ==
     /\ req' = Append(req, n)
-    /\ UNCHANGED <<initCap, applied, open, dropped, starved>>
+    /\ UNCHANGED <<initCap, applied, open, dropped, starved, stalled>>
 
 (* the change i has been applied *)
 CApplied(i) ==
     /\ i \in 1..Len(req) /\ i \notin applied
     /\ applied' = applied \cup {i}
-    /\ UNCHANGED <<initCap, req, open, dropped, starved>>
+    /\ UNCHANGED <<initCap, req, open, dropped, starved, stalled>>
 
 (* the server is restarted (a reload changed a restart-relevant option): every connection of the *)
 (* old server has ended; from here on the cap is the maxConnections of the new spec, unchanged     *)
@@ -73,7 +74,7 @@ CApplied(i) ==
 CRestart(n) ==
     /\ open = 0
     /\ initCap' = n /\ req' = <<>> /\ applied' = {}
-    /\ UNCHANGED <<open, dropped, starved>>
+    /\ UNCHANGED <<open, dropped, starved, stalled>>
 
 CNext(caps) == CAccept \/ CClose \/ (\E n \in caps : CSetMax(n) \/ CRestart(n)) \/ (\E i \in 1..Len(req) : CApplied(i))
 
@@ -98,4 +99,14 @@ NoDrop == dropped = 0
 (* left waiting while open is below every cap in effect (observed by the harness with a         *)
 (* generous deadline, see ConnCap_Trace)                                                        *)
 ReleaseReusable == ~starved
+
+(* "once a run-time change of maxConnections has been applied ...": a change that is requested is   *)
+(* applied - at the latest when no connection is open any more nothing can hold it up.  A change    *)
+(* that is never applied with nothing open (its `done` never closes, every later change queues      *)
+(* behind it) leaves the old cap in force for good: the new cap is never "the cap".  The value that *)
+(* is requested may be anything a uint32 holds, also at or above what the implementation can count  *)
+(* (its effective cap is then min(requested, capacity of the counter), which the clauses above       *)
+(* allow: they only bound `open` from above by the requested values).  Observed by the harnesses at *)
+(* a barrier (nothing open, nobody running; see ConnCap_Trace `rzstuck`).                            *)
+ChangesApplied == ~stalled
 =============================================================================
